@@ -90,7 +90,7 @@ def job_kernel(db, job):
              '; '.join(bad[:3]) or 'paths=%d all equal RoundSpec(%s)' % (len(outs), mode), span_str(fn.get('span')) if bad else None)]
 
 
-Y_CELLS = {'y>=2': (2, MAX, MIN, MAX), 'y=1': (1, 1, MIN, MAX), 'y=-1': (-1, -1, -MAX, MAX), 'y<=-2': (-MAX, -2, -MAX, MAX)}
+Y_CELLS = {'y>=2': (2, MAX, MIN, MAX), 'y=1': (1, 1, MIN, MAX), 'y=-1': (-1, -1, -MAX, MAX), 'y<=-2': (MIN, -2, MIN, MAX)}
 
 
 def job_floor(db, job):
